@@ -616,3 +616,9 @@ package boltz
 //@   modifies ctx.Bucket.Err, bktHas[ctx.Bucket.Bucket], bktVal[ctx.Bucket.Bucket], bktSub[ctx.Bucket.Bucket]
 //@   ensures[flag-only-when-set] !entity.IsSystem ==> cell(ctx.Bucket, FieldIsSystemEntity) == old(cell(ctx.Bucket, FieldIsSystemEntity))
 //@   ensures[flag-written-when-set] entity.IsSystem && old(ctx.Bucket.Err) == nil && ctx.Bucket.Err == nil ==> cell(ctx.Bucket, FieldIsSystemEntity) == encBool(true)
+
+// a map field checker selects exactly its keys: the empty one selects nothing
+//@ func (MapFieldChecker).IsUpdated
+//@   props C13
+//@   pure
+//@   ensures[selected-iff-a-key] result == has(m, name)
